@@ -3,7 +3,7 @@
 A *spec* is plain JSON (so that replays are self-contained):
   {"groups": [
       {"name": "R0", "kind": "root", "cfw": "PyArrowTable", "cols": {"a": [1,2,3], "k": [1,2,3]}, "index": ["k"]?},
-      {"name": "D0", "kind": "derived", "cfw": "PyArrowTable" | null,
+      {"name": "D0", "kind": "derived", "cfw": "PyArrowTable" | null, "cfws": ["PyArrowTable", "PandasDataFrame"]?,   (cfws: the group admits several frameworks)
        "features": {"f": {"inputs": ["a", "b"], "c0": 1, "coefs": [1, 2], "opt": {"g": 1}?}},
        "style": "copy" | "inplace" | "series"?}],        (result style of the group; default: spec["inplace"] ? "inplace" : "copy")
    "request": [{"name": "f", "opt": {..}?, "type": "INT64"?}, ...],
@@ -185,7 +185,13 @@ class Universe:
         cfw = g.get("cfw")
         ns: Dict[str, Any] = {}
 
-        if cfw:
+        if g.get("cfws"):
+            # the group ADMITS several frameworks ("cfws"; "cfw" then only names the framework the spec expects it to be planned
+            # on): the planner picks one; the generated calculations work on whatever native table they are handed
+            def compute_framework_rule(cls: Any, _cs: Any = tuple(g["cfws"])) -> Any:
+                return {cfw_class(c) for c in _cs}
+            ns["compute_framework_rule"] = classmethod(compute_framework_rule)
+        elif cfw:
             def compute_framework_rule(cls: Any, _c: str = cfw) -> Any:
                 return {cfw_class(_c)}
             ns["compute_framework_rule"] = classmethod(compute_framework_rule)
@@ -335,6 +341,7 @@ class Universe:
 
     def frameworks(self) -> Set[Any]:
         names = {g.get("cfw") for g in self.spec["groups"] if g.get("cfw")} | set(self.spec.get("api_frameworks") or [])
+        names |= {c for g in self.spec["groups"] for c in (g.get("cfws") or [])}
         if not names:
             names = {"PyArrowTable"}
         return {cfw_class(n) for n in names}
